@@ -398,8 +398,19 @@ func (w *world) indexMutation(i int) {
 		strings.Repeat(" ", 17) + "1e3", strings.Repeat("\x00", 20), strings.Repeat(" ", 19) + "\n", strings.Repeat("9", 20),
 		strings.Repeat(" ", 1) + "9223372036854775808", strings.Repeat("-", 20), "\t" + strings.Repeat(" ", 18) + "7",
 	}
-	m := w.rng.Intn(19)
+	m := w.rng.Intn(20)
+	if m == 19 && w.cur[i] == nil {
+		m = 14
+	}
 	switch m {
+	case 19: // well formed, names the output this id really has - only the size field disagrees with it
+		h := sha256.Sum256(w.cur[i])
+		n := int64(len(w.cur[i]))
+		sz := []int64{n + 1, n - 1, 0, n * 10, 1 << 40, 1<<63 - 1, n + 4096}[w.rng.Intn(7)]
+		if sz < 0 {
+			sz = 1
+		}
+		e = fmt.Sprintf("v1 %x %x %20d %20d\n", id[:], h[:], sz, tm)
 	case 0:
 		e = valid[:w.rng.Intn(len(valid))]
 	case 1:
@@ -541,7 +552,7 @@ func runHistory(dir string, c *cache.Cache, hidx int, seed int64) {
 func main() {
 	vlib.Main("C05", "exploration", 10*time.Minute, func(r *vlib.Run) {
 		run = r
-		r.Rule("histories of 30-200 steps over 6 action ids and 8 size classes (0,1,17,300,32KiB-1,32KiB,32KiB+1,100KiB; some content shared between ids): Put/PutBytes, Get/GetBytes/GetFile/OutputFile, interleaved with damage to index and output files (truncate, extend, flip, delete, replace with another entry's file, replace with a directory, same-length garbage), 18 structured index-entry mutations (every field, incl. hostile 20-byte numeric fields such as all blanks / sign only / digits then blanks, and in-place overwritten runs) and random bytes, and repairing Puts. Every history is distinct (own PRNG stream); non-trivial = history executed with at least 30 steps.")
+		r.Rule("histories of 30-200 steps over 6 action ids and 8 size classes (0,1,17,300,32KiB-1,32KiB,32KiB+1,100KiB; some content shared between ids): Put/PutBytes, Get/GetBytes/GetFile/OutputFile, interleaved with damage to index and output files (truncate, extend, flip, delete, replace with another entry's file, replace with a directory, same-length garbage), 19 structured index-entry mutations (incl. an otherwise valid entry whose size field disagrees with the intact output it names) (every field, incl. hostile 20-byte numeric fields such as all blanks / sign only / digits then blanks, and in-place overwritten runs) and random bytes, and repairing Puts. Every history is distinct (own PRNG stream); non-trivial = history executed with at least 30 steps.")
 		r.Assume("crafted index entries never point to an existing output of another id (so 'bytes never stored under this id' is a sound ownership check); directory obstructions are removed before a repairing Put")
 		W := runtime.NumCPU()
 		nh := r.Pick(600, 30000)
